@@ -41,7 +41,7 @@ PREFIX_CHARS = ['MEAT', 'ENERGY', 'DEMAND', 'Durables', 'Em_1', 'D', 'E', 'M', '
                 'MUD', 'ED', 'DEED']
 
 
-def make_renaming(rng, spec, force_prefix_chars=False):
+def make_renaming(rng, spec, force_prefix_chars=False, case_variants=False):
     codes, ckey_map = {}, {}
     used_c = set(['EXT'])
     used = set(['MON', 'DEP'] + list(M.DEFAULT_CODES.values()))     # every new code is distinct model-wide
@@ -68,7 +68,19 @@ def make_renaming(rng, spec, force_prefix_chars=False):
                     if cand and rng.random() < 0.8:
                         cm[role] = rng.choice(cand)
                         used.add(cm[role])
+            if case_variants:
+                # codes of one country that differ only by letter case (codes are case-sensitive labels)
+                pairs = [('HH', 'BUS', 'Ab', 'AB'), ('LAB', 'GOOD', 'Work', 'WORK'), ('TF', 'HH', 'tx', 'TX')]
+                ra, rb, ca_, cb_ = pairs[len(codes) % len(pairs)]
+                tag = '' if not codes else str(len(codes))
+                if (ca_ + tag) not in used and (cb_ + tag) not in used:
+                    cm[ra], cm[rb] = ca_ + tag, cb_ + tag
+                    used.update([ca_ + tag, cb_ + tag])
             codes[c['key']] = cm
+    if case_variants:
+        keys = [c['key'] for z in spec['zones'] for c in z['countries']]
+        if len(keys) >= 2:
+            ckey_map[keys[0]], ckey_map[keys[1]] = 'Ca', 'CA'
     return codes, ckey_map
 
 
@@ -143,7 +155,7 @@ class C18(object):
             'violation; distinct = hash of case; non-trivial = >= 1 code actually changed / >= 2 economies')
     assumptions = ['governments take no goods name: for a renamed goods market the spec wires DEM_GOOD = DEM_<new> on the '
                    'government, as the bundled REG model does', 'MON and DEP market codes keep their defaults']
-    required_counters = ('rename.compared', 'rename.compared.market_code_of_prefix_characters', 'embed.compared', 'embed.compared.capitalists_next_to_a_firm_that_retains_profits',
+    required_counters = ('rename.compared', 'rename.compared.market_code_of_prefix_characters', 'rename.compared.codes_differing_only_by_case', 'embed.compared', 'embed.compared.capitalists_next_to_a_firm_that_retains_profits',
                          'embed.compared.federation_with_default_currency_regions_behind_unused_external_sector', 'embed_book.compared', 'builds.compared_exactly')
 
     def n_cases(self, tier):
@@ -153,8 +165,8 @@ class C18(object):
         m = idx % 6
         if m in (0, 1, 2):
             spec = M.gen_spec(rng, n_zones=rng.choice([1, 1, 2]), maxtime=rng.randint(3, 5))
-            codes, ckey_map = make_renaming(rng, spec, force_prefix_chars=(m == 0))
-            return {'kind': 'rename', 'spec': spec, 'codes': codes, 'ckey_map': ckey_map}
+            codes, ckey_map = make_renaming(rng, spec, force_prefix_chars=(m == 0), case_variants=(m == 1))
+            return {'kind': 'rename', 'case_variants': m == 1, 'spec': spec, 'codes': codes, 'ckey_map': ckey_map}
         if m in (3, 4):
             spec = M.gen_spec(rng, n_zones=rng.choice([2, 2, 3]), ext=False, maxtime=rng.randint(3, 4), cross=False)
             if m == 4:
@@ -233,6 +245,8 @@ class C18(object):
             other_view.names = [n for n in other_E.names if n not in extra]
             compare_exact(rec, base, base_E, other, other_view, ctx, name_map=f)
             rec.count('rename.compared')
+            if case.get('case_variants'):
+                rec.count('rename.compared.codes_differing_only_by_case')
             if any(cm.get(r) in PREFIX_CHARS for cm in case['codes'].values() for r in ('GOOD', 'LAB')):
                 rec.count('rename.compared.market_code_of_prefix_characters')
         return {'verdict': 'violated' if rec.violations else 'held', 'nontrivial': changed >= 1, 'evals': 2,
